@@ -98,7 +98,7 @@ theorem rSeekLoop_lineSeek (hP1 : entryLimit ≤ P.maxEntry) (g : FilesCtx tsOf 
     cases hf : findStampIdx (d.lines.map tsOf) t with
     | some k =>
       obtain ⟨hk, hts⟩ := findStampIdx_some tsOf d.lines t k hf
-      obtain ⟨dd, hseek⟩ := seekTS_found P tsOf t d.lines hP1 (g.ctx d hdm) (g.small d hdm) k hk hts
+      obtain ⟨dd, _, hseek⟩ := seekTS_found P tsOf t d.lines hP1 (g.ctx d hdm) (g.small d hdm) k hk hts
         (r.files.getD i {})
       rw [hseek]
       constructor
